@@ -2,10 +2,10 @@ package main
 
 import (
 	"bufio"
-	"os"
 	"fmt"
 	"io"
 	"math"
+	"os"
 	"os/exec"
 	"strconv"
 	"strings"
@@ -13,32 +13,33 @@ import (
 )
 
 type SolverStats struct {
-	Queries  int
-	Sat      int
-	Unsat    int
-	Unknown  int
-	Errors   int
-	WallS    float64
-	MaxS     float64
-	Skipped  int // answered by model evaluation / constant folding
-	Restarts int
+	Queries      int
+	Sat          int
+	Unsat        int
+	Unknown      int
+	Errors       int
+	WallS        float64
+	MaxS         float64
+	Skipped      int // answered by model evaluation / constant folding
+	Restarts     int
 	HardTimeouts int
-	OneShot int
+	OneShot      int
+	Probed       int // unknown turned into sat by concrete probing (witness evaluated, then replayed)
 }
 
 type Solver struct {
-	name     string
-	cmd      *exec.Cmd
-	in       io.WriteCloser
-	out      *bufio.Reader
-	lines    chan string
-	tt       *TermTable
-	declared map[string]bool
-	depth    int
-	Stats    SolverStats
+	name      string
+	cmd       *exec.Cmd
+	in        io.WriteCloser
+	out       *bufio.Reader
+	lines     chan string
+	tt        *TermTable
+	declared  map[string]bool
+	depth     int
+	Stats     SolverStats
 	timeoutMs int
-	log      io.Writer
-	dead     bool
+	log       io.Writer
+	dead      bool
 	// mirror of the assertion stack, so that the process can be restarted
 	frames [][]string
 }
